@@ -45,21 +45,17 @@ Definition nice (pid : Z) (value : option Z) (k : kernel) : outcome resv * kerne
   end.
 
 (* ---------------------------------------------------------------- ionice *)
-(* IOPRIO_PRIO_VALUE(class, data) = (class << 13) | data on C ints; the shift is
-   undefined for class < 0 or class >= 2^18 (C17 owns that) -> OutOfModel *)
-Definition ioprio_pack (cls data : Z) : option Z :=
-  if (0 <=? cls) && (cls <? 2 ^ 18) then Some (Z.lor (Z.shiftl cls 13) data) else None.
+(* proc.c: ioprio = (int)(((unsigned int)ioclass << 13) | (unsigned int)iodata) *)
+Definition u32 (v : Z) : Z := v mod 2 ^ 32.
+Definition s32 (v : Z) : Z := if v <? 2 ^ 31 then v else v - 2 ^ 32.
+Definition ioprio_pack (cls data : Z) : Z := s32 (Z.lor (u32 (u32 cls * 8192)) (u32 data)).
 Definition ioprio_unpack (raw : Z) : Z * Z := (Z.shiftr raw 13, Z.land raw 8191).
 
 Definition c_ioprio_set (pid cls data : Z) (k : kernel) : outcome resv * kernel :=
   if fits_int cls && fits_int data then
-    match ioprio_pack cls data with
-    | None => (OutOfModel, k)
-    | Some raw =>
-      match sys_ioprio_set pid raw k with
-      | (SOk _, k') => (Val RNone, k')
-      | (SErr e, _) => (Exc (wrap e), k)
-      end
+    match sys_ioprio_set pid (ioprio_pack cls data) k with
+    | (SOk _, k') => (Val RNone, k')
+    | (SErr e, _) => (Exc (wrap e), k)
     end
   else (Exc OverflowError, k).
 (* _pslinux.ionice_get: cext.proc_ioprio_get, IOPriority(ioclass) *)
@@ -75,6 +71,7 @@ Definition ionice_set (pid cls : Z) (value : option Z) (k : kernel) : outcome re
   let v := match value with None => 0 | Some v => v end in
   if negb (v =? 0) && ((cls =? 3) || (cls =? 0)) then (Exc ValueError, k)
   else if (v <? 0) || (7 <? v) then (Exc ValueError, k)
+  else if negb ((0 <=? cls) && (cls <=? 3)) then (Exc ValueError, k)   (* "invalid ioclass" *)
   else c_ioprio_set pid cls v k.
 (* Process.ionice *)
 Definition ionice (pid : Z) (ioclass value : option Z) (k : kernel) : outcome resv * kernel :=
